@@ -135,6 +135,12 @@ def all_jobs():
     J.append(dict(id='stmt_for_doit', src='blocc/statement_for.cpp', contract='stmt_for.c', enforce=mg, roots=[mg], replace=[VCALL_VALUE] + CTX_STUBS,
                   cut=[VCALL_VALUE, RTE_CTOR, RTE_CTOR_S] + CTX_STUBS, props=['C01', 'C06'], pretty='bloc::FORStatement::doit', canaries=['normal', 'exceptional'],
                   structs=DEFAULT_STRUCTS + ['bloc::Symbol', 'bloc::Context', 'bloc::Executable']))
+    mg = '_ZNK4bloc15FORALLStatement4doitERNS_7ContextE'
+    FA_STUBS = [s for s in CTX_STUBS if 'getSymbol' not in s and 'storeVariable' not in s]
+    J.append(dict(id='stmt_forall_doit', src='blocc/statement_forall.cpp', contract='stmt_forall_doit.c', enforce=mg, roots=[mg], replace=[VCALL_VALUE, V_MOVE_ASSIGN, V_MOVE_CTOR, V_CLEAR] + FA_STUBS,
+                  cut=[VCALL_VALUE, RTE_CTOR, RTE_CTOR_S, V_MOVE_ASSIGN, V_MOVE_CTOR, V_CLEAR, '_ZN4bloc7Context9getSymbolEj'] + FA_STUBS, props=['C01', 'C06'], pretty='bloc::FORALLStatement::doit', canaries=['normal', 'exceptional'],
+                  unwind=2, unwind_why='no loop of its own; Value accessors only',
+                  structs=DEFAULT_STRUCTS + [STD_STRING, 'bloc::Symbol', 'bloc::Context', 'bloc::Executable', 'bloc::FORALLStatement', 'bloc::FORALLStatement::RT', 'bloc::Context::MemorySlot', 'bloc::VariableExpression', 'bloc::Expression', 'bloc::Collection']))
     mg = '_ZNK4bloc14WHILEStatement4doitERNS_7ContextE'
     J.append(dict(id='stmt_while_doit', src='blocc/statement_while.cpp', contract='stmt_while.c', enforce=mg, roots=[mg], replace=[VCALL_VALUE] + CTX_STUBS,
                   cut=[VCALL_VALUE, RTE_CTOR, RTE_CTOR_S] + CTX_STUBS, props=['C01', 'C04', 'C05', 'C06'], pretty='bloc::WHILEStatement::doit', canaries=['normal', 'exceptional'],
@@ -252,12 +258,14 @@ def all_jobs():
     J.append(dict(id='stmt_forall_finalize', src='blocc/statement_forall.cpp', contract='stmt_forall.c', enforce=mg, roots=[mg], replace=[V_CLEAR], cut=[V_CLEAR, '_ZN4bloc7Context9getSymbolEj'],
                   props=['C01', 'C06', 'C07'], pretty='bloc::FORALLStatement::finalizeControl', canaries=['normal'],
                   structs=DEFAULT_STRUCTS + ['bloc::FORALLStatement', 'bloc::FORALLStatement::RT', 'bloc::Context', 'bloc::Symbol', 'bloc::Context::MemorySlot', 'bloc::VariableExpression', 'bloc::Expression']))
-    mg = '_ZN4bloc15FORALLStatement12parse_clauseERNS_6ParserERNS_7ContextEPS0_'
-    J.append(dict(id='stmt_forall_parse_clause', src='blocc/statement_forall.cpp', contract='stmt_forall_parse.c', enforce=mg, roots=[mg], replace=[],
-                  cut=['_ZN4bloc7Context9getSymbolEj', '_ZN4bloc7Context9execBeginEPKNS_9StatementE', '_ZN4bloc7Context7execEndEv', '_ZN4bloc10ExecutableC1ERNS_7ContextERKNSt7__cxx114listIPKNS_9StatementESaIS7_EEE', '_ZN4bloc10ExecutableC2ERNS_7ContextERKNSt7__cxx114listIPKNS_9StatementESaIS7_EEE'],
-                  props=['C01', 'C11'], pretty='bloc::FORALLStatement::parse_clause', canaries=['normal', 'exceptional'], unwind=12, bounded_inputs=True,
-                  unwind_why='body of at most 2 statements (stub of Parser::pop yields at most 5 tokens)',
-                  structs=DEFAULT_STRUCTS + [STD_STRING, 'bloc::FORALLStatement', 'bloc::Context', 'bloc::Symbol', 'bloc::VariableExpression', 'bloc::Expression', 'bloc::Statement', 'bloc::Executable', 'bloc::Parser', 'bloc::ParseError', 'bloc::Token']))
+    EXEC_CTORS = ['_ZN4bloc10ExecutableC1ERNS_7ContextERKNSt7__cxx114listIPKNS_9StatementESaIS7_EEE', '_ZN4bloc10ExecutableC2ERNS_7ContextERKNSt7__cxx114listIPKNS_9StatementESaIS7_EEE']
+    for jid, mg, df, src, cls in (('stmt_forall_parse_clause', '_ZN4bloc15FORALLStatement12parse_clauseERNS_6ParserERNS_7ContextEPS0_', 'JOB_FORALL', 'blocc/statement_forall.cpp', 'FORALLStatement'),
+                                  ('stmt_for_parse_clause', '_ZN4bloc12FORStatement12parse_clauseERNS_6ParserERNS_7ContextEPS0_', 'JOB_FOR', 'blocc/statement_for.cpp', 'FORStatement')):
+        J.append(dict(id=jid, src=src, contract='stmt_forall_parse.c', enforce=mg, roots=[mg], replace=[], defines=[df],
+                      cut=['_ZN4bloc7Context9getSymbolEj', '_ZN4bloc7Context9execBeginEPKNS_9StatementE', '_ZN4bloc7Context7execEndEv'] + EXEC_CTORS,
+                      props=['C01', 'C11'], pretty='bloc::%s::parse_clause' % cls, canaries=['normal', 'exceptional'], unwind=12, bounded_inputs=True,
+                      unwind_why='body of at most 2 statements (stub of Parser::pop yields at most 5 tokens)',
+                      structs=DEFAULT_STRUCTS + [STD_STRING, 'bloc::' + cls, 'bloc::Context', 'bloc::Symbol', 'bloc::VariableExpression', 'bloc::Expression', 'bloc::Statement', 'bloc::Executable', 'bloc::Parser', 'bloc::ParseError', 'bloc::Token']))
     # ---- C13: stream readers ----
     mg = '_ZN4bloc12StringReader4readEPNS_6ParserEPci'
     J.append(dict(id='reader_string', src='blocc/string_reader.cpp', contract='reader_string.c', enforce=mg, roots=[mg], replace=[], cut=[],
